@@ -35,6 +35,7 @@ type Case struct {
 	SkipIndex bool           `json:"skipindex,omitempty"`
 	Async     bool           `json:"async,omitempty"`
 	Batch     int            `json:"batch"`
+	Retry     bool           `json:"retry,omitempty"` // Rows access: after the error a second reader of the same File reads the page again
 }
 
 var accesses = []string{"Rows", "Reader", "Pages", "Rows+seek", "Reader+seek", "Pages+seek", "Rows+seek", "Pages+seek"}
@@ -75,6 +76,7 @@ func genCase(t *rapid.T) Case {
 	c.SkipIndex = rapid.IntRange(0, 3).Draw(t, "skipindex") == 0
 	c.Async = rapid.IntRange(0, 3).Draw(t, "async") == 0
 	c.Batch = []int{1, 7, 64, 500}[rapid.IntRange(0, 3).Draw(t, "batch")]
+	c.Retry = rapid.Bool().Draw(t, "retry")
 	return c
 }
 
@@ -243,6 +245,42 @@ func runCase(c Case, o *kit.Obs) *kit.Failure {
 				readErr = fmt.Errorf("no progress")
 				break
 			}
+		}
+		// a second reader on the same File (the File caches lazily loaded state): it must fail too,
+		// and deliver nothing altered before failing
+		if readErr != nil && c.Retry {
+			from := firstRow
+			if isDict {
+				from = 0
+			}
+			r2 := f.RowGroups()[gi].Rows()
+			defer r2.Close()
+			var err2 error
+			if from > 0 {
+				err2 = r2.SeekToRow(from)
+			}
+			cursor2 := from
+			for err2 == nil {
+				var n int
+				n, err2 = r2.ReadRows(buf)
+				for j := 0; j < n; j++ {
+					got, serr := pq.Streams(cols, []parquet.Row{buf[j]})
+					if serr != nil || cursor2+int64(j) >= rgRows {
+						return kit.Failf("c13/altered-data-second-reader"+feat, "malformed or surplus row delivered by a second reader of the same File (%v)", serr)
+					}
+					if d := pq.DiffStreams(cols, wantRows[rgBase+cursor2+int64(j)], got); d != "" {
+						return kit.Failf("c13/altered-data-second-reader"+feat, "a second reader of the same File delivered row %d altered with no error so far: %s", cursor2+int64(j), d)
+					}
+				}
+				cursor2 += int64(n)
+				if n == 0 && err2 == nil {
+					break
+				}
+			}
+			if touched && (err2 == nil || errors.Is(err2, io.EOF)) {
+				return kit.Failf("c13/corruption-not-reported-second-reader"+feat, "the first reader reported %v; a second reader of the same File read rows %d.. to the end with %v", readErr, from, err2)
+			}
+			o.Class("second-reader")
 		}
 	case "Reader", "Reader+seek":
 		r := parquet.NewReader(f)
